@@ -217,6 +217,10 @@ type outage struct {
 	// offAll: once connected the application drops all its manager handlers (Manager.OffAll) and installs them
 	// anew: the library's own subscriptions (the sockets listening to their manager) are not the application's
 	offAll bool
+	// reopen: before the outage the application closes the manager and opens it again - "socket": Disconnect() of its
+	// only socket (which closes the manager) then Connect(); "manager": Manager.Close() then Connect(). A manager
+	// that was closed once backs off like a fresh one
+	reopen string
 }
 
 func reconnectBody(o outage, lg *evLog, after func(sock sio.ClientSocket, srvGot *[]string, v *vsched.Var)) func(e *vsched.Exec) func() vx.Result {
@@ -271,6 +275,20 @@ func reconnectBody(o outage, lg *evLog, after func(sock sio.ClientSocket, srvGot
 		sock.Connect()
 		vsched.Await(func() bool { return lg.count("connect") == 1 && len(ssocks) == 1 })
 		vrig.Settle(time.Second)
+		if o.reopen != "" {
+			if o.reopen == "manager" {
+				mgr.Close()
+			} else {
+				sock.Disconnect()
+			}
+			vrig.Settle(time.Second)
+			sock.Connect()
+			vsched.Await(func() bool { return lg.count("connect") == 2 && len(ssocks) == 2 })
+			vrig.Settle(time.Second)
+			// what happened so far is set-up: the outage is judged from a clean log (one connection, up)
+			lg.v.Do(func() { lg.log = []string{fmt.Sprintf("connect@%v", e.Clock())} })
+			ssocks = ssocks[1:]
+		}
 		if o.offAll {
 			mgr.OffAll()
 			install()
@@ -290,6 +308,9 @@ func reconnectBody(o outage, lg *evLog, after func(sock sio.ClientSocket, srvGot
 			what := fmt.Sprintf("outage of %d dials, limit %d, dial time %v: %v", o.j, o.limit, o.dialTime, lg.log)
 			if o.offAll {
 				what = "after Manager.OffAll() and a fresh set of handlers, " + what
+			}
+			if o.reopen != "" {
+				what = "manager closed (through its " + o.reopen + ") and opened again before the outage, " + what
 			}
 			gaveUp := o.limit > 0 && o.j >= int(o.limit)
 			wantAttempts := o.j + 1
@@ -938,6 +959,8 @@ func main() {
 						runOutage(outage{j: j, limit: limit, dialTime: dt}, r)
 						if dt == 0 && j <= 2 {
 							runOutage(outage{j: j, limit: limit, offAll: true}, r)
+							runOutage(outage{j: j, limit: limit, reopen: "socket"}, r)
+							runOutage(outage{j: j, limit: limit, reopen: "manager"}, r)
 						}
 						n++
 					}
